@@ -60,7 +60,8 @@ def main():
                 shutil.copy(d, dst)
                 placed.append(dst)
         run_pat = "."
-        m = re.search(r"-run[ =]+'?\"?([A-Za-z0-9_^$|]+)", rtxt)
+        m = re.search(r"(?<![A-Za-z])-run[ =]+'?\"?\^?(Test[A-Za-z0-9_^$|]+)", rtxt) or \
+            re.search(r"(?<![A-Za-z])-run[ =]+'?\"?([A-Za-z0-9_^$|]+)", rtxt)
         if m:
             run_pat = m.group(1)
         meta["demo_run_pattern"] = run_pat
